@@ -244,6 +244,17 @@ fn transpose_cases(rng: &mut Rng) {
       }
     }
   }
+  // outside the matrix case: num_cols = 0, and lengths that are not a multiple of num_cols
+  for len in 0..=13usize {
+    for cols in 0..=4usize {
+      let v: Vec<u32> = (0..len as u32).collect();
+      let r = guarded(move || transpose_vec(v, cols));
+      match r {
+        Ok(out) => emit(json!({"kind": "transpose_ragged", "len": len, "cols": cols, "out": out, "panic": Value::Null})),
+        Err(m) => emit(json!({"kind": "transpose_ragged", "len": len, "cols": cols, "out": Value::Null, "panic": m})),
+      }
+    }
+  }
   // random contents on square shapes (the values must only be moved, never combined)
   for _ in 0..6 {
     let n = 1 + rng.below(12);
